@@ -48,7 +48,7 @@ Proof.
   assert (Hstep : forall i D0' cap0 rl0 w0, 0 <= i < Z.of_nat nmin -> hinv D0' -> (A + 8 * dn) + 8 * Z.of_nat nmin <= zlen D0' ->
             step (dstw D0' cap0 m rl0) i = Ok w0 ->
             exists word body cap' rl',
-              w0 = dstw (put_word D0' ((A + 8 * dn) + 8 * i) word ++ body) cap' m rl' /\ hinv (D0' ++ body) /\
+              w0 = dstw (put_word D0' ((A + 8 * dn) + 8 * i) word ++ body) cap' m rl' /\ hinv (D0' ++ body) /\ bytes_ok body /\
               forall pre' tail, zlen pre' = zlen D0' -> word_is pre' ((A + 8 * dn) + 8 * i) word -> P i (pre' ++ body ++ tail)).
   { intros i D0' cap0 rl0 w0 Hi0 Hinv0 Hb0 Hs0. unfold step in Hs0. cbn [w_segs w_rl dstw w_src w_src_rl] in Hs0.
     change (nth (Z.to_nat (p_seg s)) m []) with (seg_of m s) in Hs0.
@@ -77,13 +77,13 @@ Proof.
     { rewrite pointerAddress_eq; rewrite ?Doff, ?Dsz; cbn [DataSize]; destruct Hinv0; unfold zlen, nmin in *; lia. }
     rewrite PA in Hs0.
     destruct (HW D0' cap0 rl1 ((A + 8 * dn) + 8 * i) p0 (nthv vs i) true w0 Hinv0 ltac:(lia) ltac:(lia)
-                 ltac:(unfold nmin in *; lia) WP AP CAP CTG DP SD Hs0) as (word & body & cap2 & rl2 & -> & Hinv2 & Post).
-    exists word, body, cap2, rl2. split; [reflexivity|]. split; [exact Hinv2|].
+                 ltac:(unfold nmin in *; lia) WP AP CAP CTG DP SD Hs0) as (word & body & cap2 & rl2 & -> & Hinv2 & Bb & Post).
+    exists word, body, cap2, rl2. split; [reflexivity|]. split; [exact Hinv2|]. split; [exact Bb|].
     intros pre' tail Lp Hwd Hbound. apply Post; assumption. }
   destruct (fold_res (iota nmin) (dstw D1 cap m rl) step) as [w2| |] eqn:E1; try discriminate H. cbn [bind] in H.
   destruct (sem_loop step m (A + 8 * dn) nmin P ltac:(lia) ltac:(lia) Hstep nmin (le_n _) D1 cap rl w2
                      ltac:(split; lia) ltac:(rewrite Ls1; unfold nmin; lia) E1)
-    as (words & kids & cap1 & rl1 & Lw & -> & Hinvk & PostL).
+    as (words & kids & cap1 & rl1 & Lw & -> & Hinvk & Bk & PostL).
   (* the second loop *)
   set (k2 := Z.to_nat (pn - ns)) in *.
   assert (Hbk : zlen D + zlen kids <= BOUND).
@@ -106,7 +106,7 @@ Proof.
     { assert (E4 : set_slots D1 (A + 8 * dn) (words ++ repeat 0 k2) = set_slots D A (dws ++ words ++ repeat 0 k2)).
       { unfold D1. rewrite <- Ldw. apply set_slots_app; [lia|]. rewrite !zlen_app. unfold zlen in *. rewrite repeat_length. unfold k2. lia. }
       rewrite E4. reflexivity. }
-    split; [unfold hinv in *; rewrite zlen_app in *; rewrite Ls1 in Hinvk; exact Hinvk|].
+    split; [unfold hinv in *; rewrite zlen_app in *; rewrite Ls1 in Hinvk; exact Hinvk|]. split; [exact Bk|].
     intros pre' tail Lp Hs Hbound i Hi0.
     assert (Lblk : zlen (dws ++ words ++ repeat 0 k2) = dn + pn)
       by (rewrite !zlen_app; unfold zlen in *; rewrite repeat_length; unfold k2; lia).
@@ -131,7 +131,7 @@ Proof.
     apply Ok_inj in H. subst w'.
     exists words, kids, cap1, rl1.
     split; [unfold zlen, nmin in *; lia|]. split; [reflexivity|].
-    split; [unfold hinv in *; rewrite zlen_app in *; rewrite Ls1 in Hinvk; exact Hinvk|].
+    split; [unfold hinv in *; rewrite zlen_app in *; rewrite Ls1 in Hinvk; exact Hinvk|]. split; [exact Bk|].
     intros pre' tail Lp Hs Hbound i Hi0.
     rewrite nthv_resize_ptrs by lia. replace (i <? zlen vs) with true by (unfold zlen, ns in *; lia).
     assert (HsL : sub pre' (A + 8 * dn) (8 * Z.of_nat nmin) = bytes_of_words words).
